@@ -23,7 +23,7 @@ from pybrops.breed.prot.bv.MeanPhenotypicBreedingValue import MeanPhenotypicBree
 from pybrops.popgen.gmat.DenseGenotypeMatrix import DenseGenotypeMatrix
 
 PROP = "C14"
-RUNS = {"quick": 12000, "thorough": 300000}
+RUNS = {"quick": 24000, "thorough": 300000}
 WALL = {"quick": 200, "thorough": 2400}
 RULE = ("scenario = population (1-8 taxa, taxa groups present or not), additive model (1-3 traits), nenv 1-4, nrep scalar or per environment (1-3), "
         "variance setting (all zero | no error | general; scalar or per trait, zeros mixed in), optional set_h2/set_H2 target, generator kind; then "
